@@ -348,7 +348,7 @@ def _local_cliquishness_4thorder(
                             if A[node2, node3] == 1 and A[node3, node1] == 1:
                                 counter += 1
             local_cliquishness[i] = counter /\
-                (degree_i * (degree_i - 1) * (degree_i - 2))
+                (<double> degree_i * (degree_i - 1) * (degree_i - 2))
     return local_cliquishness
 
 
@@ -391,7 +391,8 @@ def _local_cliquishness_5thorder(
                                         A[node3, node4] == 1):
                                         counter += 1
             local_cliquishness[i] = counter /\
-                (degree_i * (degree_i - 1) * (degree_i - 2) * (degree_i -3))
+                (<double> degree_i * (degree_i - 1) * (degree_i - 2) *
+                 (degree_i - 3))
     return local_cliquishness
 
 
